@@ -404,7 +404,12 @@ func execute(p *progSpec, origin *realOrigin) (o obsT, res *okT, er *errT) {
 	}
 	if p.Retry {
 		rq.SetRetryCount(p.Max).SetRetryFixedInterval(0)
-		rq.SetRetryHook(func(resp *req.Response, err error) { st.ev("hook", 0) })
+		rq.SetRetryHook(func(resp *req.Response, err error) {
+			// hooks run after RetryAttempt++ but belong to the iteration that decided to retry
+			st.mu.Lock()
+			st.log = append(st.log, logEv{Kind: "hook", Attempt: rq.RetryAttempt - 1})
+			st.mu.Unlock()
+		})
 		if p.Conds {
 			rq.SetRetryCondition(func(resp *req.Response, err error) bool {
 				st.ev("cond", 0)
@@ -459,6 +464,9 @@ func execute(p *progSpec, origin *realOrigin) (o obsT, res *okT, er *errT) {
 		return
 	}
 	o.Log = append([]logEv{}, st.log...)
+	if p.ReqErr == 0 {
+		o.Iters = rq.RetryAttempt + 1
+	}
 	o.Order = st.order
 	if st.stubFault != "" {
 		o.RtPanic = "stub: " + st.stubFault
